@@ -7,6 +7,8 @@
 import FordModel.Display
 import FordModel.DisplaySpec
 import FordModel.Lemmas.Display
+import FordModel.DisplayLinks
+import FordModel.Lemmas.DisplayLinks
 namespace Ford.C05
 open Ford Ford.Display Ford.Display.Spec Ford.Generated
 
@@ -108,38 +110,112 @@ theorem pages_are_linkable (cfg : Cfg) (p : List Ent) (hw : wfProject p = true) 
     (hx : x ∈ pageIds (pruneProject cfg p)) : x ∈ visibleIdsOf (pruneProject cfg p) :=
   pageIds_visible cfg x p hw hx
 
+/-! ### `[[name]]` links in doc comments -/
+
+/-- Tie to the source (regenerated on every run): a `[[name]]` is resolved by exactly the code the
+    model was written against - `FordLinkProcessor.convert_link`, `FortranBase.find_child` over
+    `FortranBase.children`, `_find_in_list`, `Project.find`, `get_url` / `get_dir` - and **no class
+    overrides** `find_child`, `children`, `iterator`, `get_url`, `find` or `convert_link` (an override
+    would be a lookup the model does not have); `get_dir` is defined in the four known classes.
+    `convert_link` is one of the two versions the model has a switch for: the code as it is, or
+    the candidate repair with its helper `_has_written_page` (`LinkEnv.checksPage`). -/
+theorem link_lookup_pinned :
+    C05.findChildDefinedIn = ["sourceform:FortranBase"]
+    ∧ C05.childrenDefinedIn = ["sourceform:FortranBase"]
+    ∧ C05.iteratorDefinedIn = ["sourceform:FortranBase"]
+    ∧ C05.getUrlDefinedIn = ["sourceform:FortranBase"]
+    ∧ C05.getDirDefinedIn = ["sourceform:FortranBase", "sourceform:FortranInterface", "sourceform:FortranProcedure", "sourceform:FortranSubmodule"]
+    ∧ C05.findDefinedIn = ["fortran_project:Project"]
+    ∧ C05.convertLinkDefinedIn = ["_markdown:FordLinkProcessor"]
+    ∧ C05.nonListChildren = ["constructor", "procedure", "retvar"]
+    ∧ C05.findChildPin = "1b45a2978fe933ee" ∧ C05.findInListPin = "c8d0d02a7c62fd9a"
+    ∧ C05.projectFindPin = "8712be48379dbb74"
+    ∧ C05.getUrlPin = "78b107b183a1e8a4" ∧ C05.getDirPin = "3fad1df189b346bf"
+    ∧ ((C05.convertLinkPin = "8626d3df74768258" ∧ C05.hasWrittenPagePin = "")
+       ∨ (C05.convertLinkPin = "36e31de78f46ca73" ∧ C05.hasWrittenPagePin = "18774cbfbb1007ee")) := by decide
+
+/-- Every list attribute `find_child` searches is one of the child lists of the entity tree
+    (those are what `prune()` filters: `prune_lists_cover`) - the only exceptions are `bindings`
+    (the model's `viaRef`), and `common` / `namelists`, which are not generated.  Adding a list
+    to `FortranBase.children` that no `prune()` knows changes this obligation. -/
+theorem link_lookup_lists_are_tree_lists :
+    ∀ l ∈ C05.childrenLists, l = "bindings" ∨ l = "namelists" ∨
+      (listOf .file :: listOf .module :: listOf .submodule :: listOf .program :: listOf .blockdata
+        :: listOf .subroutine :: listOf .function :: listOf .modproc :: listOf .type :: listOf .variable
+        :: listOf .boundproc :: listOf .finalproc :: listOf .generic :: listOf .absint :: listOf .enum
+        :: listOf .common :: listOf .arg :: []).contains l = true := by decide
+
+/-- Every project list `Project.find` searches (`LINK_TYPES`) is a list of entities that get a
+    page (`Documentation`'s page map, filled from pruned lists: `pages_exact_partial`), the list of
+    all files, or a list of external entities. -/
+theorem link_lookup_project_lists_are_page_lists :
+    ∀ l ∈ C05.linkTypes.map (·.2),
+      (C05.pageMap.map (·.1)).contains l = true ∨ l = "allfiles"
+      ∨ (["extModules", "extTypes", "extProcedures", "extInterfaces"].contains l = true) := by decide
+
+/-- **Links point at pages that exist** (any project, pruned or not; any names; any links): the
+    page a resolved `[[name]]` points at is the page of an entity in the project's page lists -
+    unless the name was found through a procedure object that a type-bound / final procedure
+    keeps (`viaRef`; excluded class = known finding `C05-link-to-unselected-bound-procedure`).
+    Covers the comments of all surviving entities, all three lookups of `convert_link`. -/
+theorem doc_links_point_at_written_pages_partial (E : LinkEnv) (q : List Ent) (l : Link)
+    (hl : l ∈ linksOf E q) (h : Hit) (hh : l.hit = some h) (hv : h.viaRef = false) :
+    h.page ∈ pageIds q :=
+  linksOf_pages E q l hl h hh hv
+
+/-- **Links never point at pages of unselected entities** (the code as it is): after `prune`, for
+    every configuration and every well-formed project, a `[[name]]` in the comment of a surviving
+    entity that resolves directly points at the page of a *selected* entity. -/
+theorem doc_links_point_at_selected_pages_partial (cfg : Cfg) (p : List Ent) (hc : cfgOk cfg = true)
+    (hw : wfProject p = true) (hf : cfg.fileInherits = true ∨ noFileDisplay p = true)
+    (E : LinkEnv) (l : Link) (hl : l ∈ linksOf E (pruneProject cfg p))
+    (h : Hit) (hh : l.hit = some h) (hv : h.viaRef = false) :
+    h.page ∈ selPages cfg p := by
+  rw [← pageIds_pruneProject cfg hc p hw hf]
+  exact linksOf_pages E _ l hl h hh hv
+
+/-- The same at full strength once the link extension tests that the page is written (candidate
+    repair `fixes/C05-doc-link-hidden-page.diff`, model switch `checksPage`): every resolved link,
+    references included. -/
+theorem doc_links_point_at_selected_pages (cfg : Cfg) (p : List Ent) (hc : cfgOk cfg = true)
+    (hw : wfProject p = true) (hf : cfg.fileInherits = true ∨ noFileDisplay p = true)
+    (E : LinkEnv) (hk : E.checksPage = true) (l : Link) (hl : l ∈ linksOf E (pruneProject cfg p))
+    (h : Hit) (hh : l.hit = some h) : h.page ∈ selPages cfg p := by
+  rw [← pageIds_pruneProject cfg hc p hw hf]
+  exact linksOf_pages_checked E _ hk l hl h hh
+
 /-! ### witnesses of the genuine violations -/
 
-/-- Known finding `C05-file-display-not-inherited`: with the code as it is the public variable
-    (4) is rendered and the private one (3) is not, although the file's metadata selects the
-    opposite; with inheritance repaired the two sides agree. -/
-theorem file_display_not_inherited_witness :
-    renderedOf (pruneProject (wCfg false) wFile) = [1, 2, 4]
-    ∧ selProject (wCfg false) wFile = [1, 2, 3]
-    ∧ renderedOf (pruneProject (wCfg true) wFile) = [1, 2, 3] := by decide
+/-- Known finding `C05-link-to-unselected-bound-procedure`: the comment of the public binding 4
+    names the private procedure 5 it binds; the link is resolved through `bindings` and points at
+    the page of 5, which is not among the pages; with the page test the link is not made. -/
+theorem link_via_binding_witness :
+    linksOf (LinkWitness.eBinding false) (pruneProject LinkWitness.cfg LinkWitness.pBinding)
+      = [⟨4, 5, some ⟨5, 5, true⟩⟩]
+    ∧ pageIds (pruneProject LinkWitness.cfg LinkWitness.pBinding) = [1, 2, 3]
+    ∧ selPages LinkWitness.cfg LinkWitness.pBinding = [1, 2, 3]
+    ∧ linksOf (LinkWitness.eBinding true) (pruneProject LinkWitness.cfg LinkWitness.pBinding)
+      = [⟨4, 5, none⟩] := by decide
 
-/-- Known finding `C05-enum-never-filtered`: a private enumeration and its enumerator are
-    rendered under `display: public` (both variants of the model). -/
-theorem enum_never_filtered_witness :
-    renderedOf (pruneProject (wCfg false) wEnum) = [1, 2, 3, 4]
-    ∧ selProject (wCfg false) wEnum = [1, 2]
-    ∧ renderedOf (pruneProject (wCfg true) wEnum) = [1, 2, 3, 4] := by decide
+/-- Known finding `C05-link-inside-unselected-referenced-procedure`: the private procedure 4 is
+    displayed under the public generic 3; when its comment is converted the context is the
+    unpruned object, `[[a5]]` is found among its own children and points at the page of 4,
+    which is not among the pages; with the page test the link is not made. -/
+theorem link_in_referenced_procedure_witness :
+    LinkWitness.referencedHit false = some ⟨5, 4, false⟩
+    ∧ pageIds (pruneProject LinkWitness.cfg LinkWitness.pReferenced) = [1, 2, 3]
+    ∧ selPages LinkWitness.cfg LinkWitness.pReferenced = [1, 2, 3]
+    ∧ LinkWitness.referencedHit true = none := by decide
 
 /-! ### non-vacuity -/
 
-example : wfProject wFile = true ∧ cfgOk (wCfg false) = true ∧ noFileDisplay wFile = false := by decide
-/-- a project with options at module, type and procedure level that satisfies every hypothesis -/
+/-- links that satisfy the hypotheses of the link theorems: to a type (own page), to its component
+    (the type's page), to a private function (not linked), to the module; from a component to
+    itself and to its type -/
 example :
-    let p : List Ent :=
-      [.mk { id := 1, kind := .file, perm := .pub, doc := true, disp := [], pint := none, refs := [], visible := false }
-        (.cons (.mk { id := 2, kind := .module, perm := .pub, doc := true, disp := [.priv, .pub], pint := none, refs := [], visible := false }
-          (.cons (.mk { id := 3, kind := .type, perm := .priv, doc := true, disp := [.none], pint := none, refs := [], visible := false }
-            (.cons (.mk { id := 4, kind := .variable, perm := .pub, doc := true, disp := [], pint := none, refs := [], visible := false } .nil) .nil))
-          (.cons (.mk { id := 5, kind := .subroutine, perm := .pub, doc := true, disp := [], pint := some true, refs := [], visible := false }
-            (.cons (.mk { id := 6, kind := .arg, perm := .pub, doc := false, disp := [], pint := none, refs := [], visible := false } .nil)
-            (.cons (.mk { id := 7, kind := .variable, perm := .prot, doc := true, disp := [], pint := none, refs := [], visible := false } .nil) .nil)))
-           .nil))) .nil)]
-    wfProject p = true ∧ noFileDisplay p = true
-      ∧ renderedOf (pruneProject (wCfg false) p) = [1, 2, 3, 5, 6] ∧ selPages (wCfg false) p = [1, 2, 3, 5] := by decide
+    linksOf LinkWitness.ePlain (pruneProject LinkWitness.cfg LinkWitness.pPlain)
+      = [⟨4, 4, some ⟨4, 3, false⟩⟩, ⟨4, 3, some ⟨3, 3, false⟩⟩,
+         ⟨5, 3, some ⟨3, 3, false⟩⟩, ⟨5, 4, none⟩, ⟨5, 6, none⟩, ⟨5, 2, some ⟨2, 2, false⟩⟩]
+    ∧ wfProject LinkWitness.pPlain = true ∧ cfgOk LinkWitness.cfg = true := by decide
 
 end Ford.C05
